@@ -31,7 +31,7 @@ import traceback
 from hypothesis import strategies as st
 
 from .. import x86link
-from ..core import Discard, HarnessError, Stats, hyp_search, open_finding_ids, subseed
+from ..core import Discard, HarnessError, Stats, hyp_search, jhash, open_finding_ids, subseed
 
 PID = "C40"
 RULE = (
@@ -59,7 +59,7 @@ ASSUMPTIONS = [
     "other exception while compiling an in-domain signature is a failure",
 ]
 TRUSTED = ["CPython", "Hypothesis", "gcc 12 + GNU as/ld (driver, shim, link)", "register/stack location model in vf/props/c40.py (shim poisoning only)"]
-REGISTER = False
+REGISTER = True
 TECHNIQUE = "differential execution: generated signatures, ppci object linked with gcc-compiled driver and assembly shim, values and callee-saved registers compared at run time"
 LEVEL_TEXT = (
     "Exploration: generated signatures are compiled by ppci, linked with gcc-compiled code in both call directions and "
@@ -499,7 +499,7 @@ def evaluate(sigs, workdir):
     byidx = {s["idx"]: s for s in good}
     problems = {k: [] for k in pending}
     while pending:
-        r = x86link.run_exe(exe, pending, timeout=20)
+        r = x86link.run_exe(exe, pending, timeout=60)
         begun, ended = [], set()
         for line in r.stdout.splitlines():
             f = line.split()
@@ -519,7 +519,7 @@ def evaluate(sigs, workdir):
         if crashed:
             k = crashed[0]
             res[k] = ("fail", "; ".join(["crash: %s during the call" % x86link.signal_name(r.status)] + problems[k]))
-        elif r.status != "ok":
+        elif r.status not in ("ok", "timeout"):
             raise HarnessError("driver ended with %s outside a test: %s" % (r.status, r.stderr[-500:]))
         done = set(begun)
         new_pending = [k for k in pending if k not in done]
@@ -628,9 +628,25 @@ def _bytes_match(pred, got):
 
 
 def classify(case, msg):
-    if len(case.get("sigs", ())) != 1 or "\n" in msg:
-        return None
-    sig = case["sigs"][0]
+    """One failing signature: the id of the finding whose narrow signature matches.  A multi-signature case (replay
+    corpus) is attributed only if every failing line matches a finding; then an id that is not open is preferred, so
+    that a fixed finding that reappears among open ones still alarms."""
+    sigs = case.get("sigs", ())
+    lines = msg.split("\n")
+    if len(sigs) == 1 and len(lines) == 1:
+        return _classify_one(sigs[0], msg)
+    ids = []
+    for line in lines:
+        match = [s for s in sigs if line.startswith(sig_text(s) + ": ")]
+        kid = _classify_one(match[0], line) if len(match) == 1 else None
+        if kid is None:
+            return None
+        ids.append(kid)
+    closed = [k for k in ids if k not in open_finding_ids(PID)]
+    return (closed or ids or [None])[0]
+
+
+def _classify_one(sig, msg):
     probs = _problems(sig, msg)
     if not probs:
         return None
@@ -789,7 +805,7 @@ def _kind(msg):
     return msg.split(":", 1)[0].split(" ", 1)[0]
 
 
-def minimise(sig, msg, budget=30):
+def minimise(sig, msg, budget=16):
     """Greedy reduction of a confirmed failing signature; keeps the kind of the first problem."""
     kind = _kind(msg)
     kid0 = classify({"sigs": [sig]}, fail_message(sig, msg))
@@ -841,20 +857,30 @@ def sig_classes(sig, outcome):
 
 def _worker(arg):
     """Hypothesis draws the signatures; they are evaluated in link batches of bsize afterwards."""
-    seed, nsigs, bsize = arg
+    seed, nsigs, bsize, min_budget = arg
     stats = Stats()
     fails = []
     open_ids = open_finding_ids(PID)
     drawn = []
+    seen = set()
 
-    def prop(sig):
-        drawn.append(apply_exclusions(sig, stats))
+    def prop(sigs):
+        # (Hypothesis' first example is the minimal one: bsize identical 'void f(void)' - kept once)
+        for sig in sigs:
+            h = jhash(sig)
+            if h not in seen:
+                seen.add(h)
+                drawn.append(apply_exclusions(sig, stats))
         return None
 
-    hyp_search(sig_strategy(), prop, nsigs, seed, stats, shrink=False)
+    nbatches = (nsigs + bsize - 1) // bsize
+    hyp_search(st.lists(sig_strategy(), min_size=bsize, max_size=bsize), prop, nbatches + 1, seed, stats, shrink=False)
     confirmations = 0
-    for i in range(0, len(drawn), bsize):
-        sigs = [dict(s, idx=j) for j, s in enumerate(drawn[i:i + bsize])]
+    chunks = [drawn[i:i + bsize] for i in range(0, len(drawn), bsize)]
+    if len(chunks) > 1 and len(chunks[-1]) <= 4:
+        chunks[-2:] = [chunks[-2] + chunks[-1]]
+    for chunk in chunks:
+        sigs = [dict(s, idx=j) for j, s in enumerate(chunk)]
         res = eval_in_tmp(sigs)
         for sig in sigs:
             kind, val = res[sig["idx"]]
@@ -866,7 +892,7 @@ def _worker(arg):
             stats.case(sig_key(sig) if nt else None, nt, sample, classes=sig_classes(sig, kind))
             if kind != "fail":
                 continue
-            if confirmations >= 8:
+            if confirmations >= 4:
                 stats.hist["failures_not_rerun"] += 1
                 continue
             confirmations += 1
@@ -881,8 +907,8 @@ def _worker(arg):
             if kid and kid in open_ids:
                 stats.known[kid] += 1
                 continue
-            if len(fails) < 2:
-                single, v2 = minimise(single, v2)
+            if not fails:
+                single, v2 = minimise(single, v2, min_budget)
             fails.append(({"sigs": [single]}, fail_message(single, v2)))
     return stats, fails
 
@@ -891,6 +917,6 @@ def run(ctx):
     why = x86link.have_toolchain()
     if why:
         raise HarnessError(why)
-    nsigs, bsize = ctx.scale((20, 20), (1250, 20))
-    ctx.pmap(_worker, [(subseed(ctx.seed, PID, w), nsigs, bsize) for w in range(16)])
+    nsigs, bsize = ctx.scale((14, 14), (1260, 20))
+    ctx.pmap(_worker, [(subseed(ctx.seed, PID, w), nsigs, bsize, ctx.scale(8, 30)) for w in range(16)])
     ctx.extra["targets_covered"] = ["x86_64 (System V, gcc 12 as the conforming compiler)"]
